@@ -66,6 +66,8 @@ def run_workload(result, cfg, script, tier, seed, parts=8, timeout=3600, extra_a
     lock = threading.Lock()
     summaries = []
     t0 = time.time()
+    # more parts than cores balances the load (the cost per class is very uneven); at most NCPU children run at a time
+    sem = threading.BoundedSemaphore(max(1, int(os.environ.get("VERIF_PYPAR", os.cpu_count() or 16))))
 
     def worker(k):
         start = 0
@@ -73,7 +75,8 @@ def run_workload(result, cfg, script, tier, seed, parts=8, timeout=3600, extra_a
         while True:
             guard += 1
             args = ["--tier", tier, "--seed", str(seed), "--part", "%d/%d" % (k, parts), "--start", str(start)] + list(extra_args)
-            r = run_one(cfg, script, args, timeout, extra_env)
+            with sem:
+                r = run_one(cfg, script, args, timeout, extra_env)
             evs = r["events"]
             summ = [e for e in evs if e["ev"] == "summary"]
             viols = [e for e in evs if e["ev"] == "viol"]
